@@ -54,6 +54,8 @@ func c18Groups() []c18Group {
 	var nilS *c18S
 	i1, i1b, i2 := 7, 7, 8
 	pp1, pp1b := &s1, &s1b
+	var nilInner, nilInner2 *c18S
+	ppn, ppn2 := &nilInner, &nilInner2 // pointers to nil pointers
 	ch1, ch2 := make(chan int), make(chan int)
 	var nilCh chan int
 	var nilMap map[string]int
@@ -92,7 +94,7 @@ func c18Groups() []c18Group {
 		{"map", T(m1), []interface{}{m1, m1b, m2, map[string]int{}, nilMap}},
 		{"ptr", T(s1), []interface{}{s1, s1b, s2, nilS}},
 		{"intptr", T(&i1), []interface{}{&i1, &i1b, &i2}},
-		{"ptrptr", T(pp1), []interface{}{pp1, pp1b}},
+		{"ptrptr", T(pp1), []interface{}{pp1, pp1b, ppn, ppn2}},
 		{"func", T(c18f0), []interface{}{c18f0, c18f1, nilF}},
 		{"chan", T(ch1), []interface{}{ch1, ch2, nilCh}},
 		{"ptrstruct", T(c18PS{}), []interface{}{c18PS{s1, 1}, c18PS{s1b, 1}, c18PS{s2, 1}, c18PS{s1, 2}, c18PS{nil, 1}, c18PS{nilS, 1}}},
@@ -104,7 +106,7 @@ func c18Groups() []c18Group {
 		{"deep", T(c18Deep{}), []interface{}{c18Deep{c18PS{s1, 1}, [2]*int{&i1, nil}, nil}, c18Deep{c18PS{s1b, 1}, [2]*int{&i1b, nil}, nil}, c18Deep{c18PS{s2, 1}, [2]*int{&i1, nil}, nil}, c18Deep{}}},
 		{"ptrslice", T([]*c18S{}), []interface{}{[]*c18S{s1, s2}, []*c18S{s1b, s2}, []*c18S{s2, s1}, []*c18S{nil}, []*c18S{}}},
 		{"ptrmap", T(map[int]*c18S{}), []interface{}{map[int]*c18S{1: s1}, map[int]*c18S{1: s1b}, map[int]*c18S{1: s2}, map[int]*c18S{2: s1}}},
-		{"iface-any", anyT, []interface{}{1, 1, 2, "a", "a", c18S{1, "a", 1.5}, c18S{1, "a", 1.5}, s1, s1b, nil, []int{1}, []int{1}, true}},
+		{"iface-any", anyT, []interface{}{1, 1, 2, "a", "a", c18S{1, "a", 1.5}, c18S{1, "a", 1.5}, s1, s1b, nil, []int{1}, []int{1}, true, nilS, pp1, pp1b, ppn}},
 		{"iface-error", errT, []interface{}{e1, e2, e1, nil}},
 	}
 }
@@ -359,6 +361,54 @@ func c18(args []string) int {
 					"panic": p1, "resolve": rp + ip, "resolve_len": ip2, "dom": c18SameDyn(x, a) && c18SameDyn(y, a), "fx": c18Fmt(x), "fa": c18Fmt(a), "num": c18IsNum(x) && c18IsNum(a)})
 			}
 		}
+	}
+	// ---- variadic expansion: the same call evaluated by several clauses must see the same arguments every time
+	for k := 0; k < 200; k++ {
+		nfix, nvar := rng.Intn(3), rng.Intn(4)
+		var input []reflect.Value
+		for i := 0; i < nfix; i++ {
+			input = append(input, reflect.ValueOf(100+i))
+		}
+		tail := make([]int, nvar)
+		for i := range tail {
+			tail[i] = 7 + i
+		}
+		input = append(input, reflect.ValueOf(tail))
+		snap := make([]string, len(input))
+		for i, v := range input {
+			snap[i] = fmt.Sprint(v.Interface())
+		}
+		render := func(vs []reflect.Value) string {
+			var ps []string
+			for _, v := range vs {
+				ps = append(ps, fmt.Sprint(v.Interface()))
+			}
+			return strings.Join(ps, ",")
+		}
+		var r1, r2, pan string
+		func() {
+			defer func() {
+				if e := recover(); e != nil {
+					pan = trunc(fmt.Sprint(e), 80)
+				}
+			}()
+			r1 = render(arg.ExpandVariadic(input))
+			r2 = render(arg.ExpandVariadic(input))
+		}()
+		unchanged := true
+		for i, v := range input {
+			if fmt.Sprint(v.Interface()) != snap[i] {
+				unchanged = false
+			}
+		}
+		var want []string
+		for i := 0; i < nfix; i++ {
+			want = append(want, fmt.Sprint(100+i))
+		}
+		for _, t := range tail {
+			want = append(want, fmt.Sprint(t))
+		}
+		out.Put(map[string]interface{}{"kind": "expand", "nfix": nfix, "nvar": nvar, "first": r1, "second": r2, "want": strings.Join(want, ","), "input_unchanged": unchanged, "panic": pan})
 	}
 	return 0
 }
